@@ -164,6 +164,21 @@ func (e *Exec) scenarioShape(path string, t types.Type, a string) ([]altFn, bool
 			delete(s.Fresh, r.Cell)
 			return SliceV{Arr: r, Len_: len(els), Cap: len(els)}
 		}, a)
+	case "atoms": // atoms(n): a slice of n unknown strings
+		n := 0
+		fmt.Sscan(args[0], &n)
+		return one(func(s *State) Val {
+			var els []Val
+			for i := 0; i < n; i++ {
+				els = append(els, atom(fmt.Sprintf("%s[%d]", path, i)))
+			}
+			if n == 0 {
+				return SliceV{}
+			}
+			r := s.alloc(&Agg{Elems: els})
+			delete(s.Fresh, r.Cell)
+			return SliceV{Arr: r, Len_: n, Cap: n}
+		}, a)
 	case "symmap": // an unknown map: lookups yield fresh symbols
 		return one(func(s *State) Val {
 			r := s.alloc(&MapAgg{Unknown: true, Tag: path})
